@@ -169,10 +169,26 @@ func (p *Prog) ipathsD(f *ssa.Function, depth int, stack map[*ssa.Function]bool)
 						if okc && len(sub) > 0 && len(sub)*len(cur) <= ipathLimit {
 							psub := map[string]string{}
 							fsub := map[string]string{} // function-valued parameters bound to a named function
+							type closureArg struct {
+								fn *ssa.Function
+								fv map[string]string // free variable -> key of the captured value, in this function's terms
+							}
+							csub := map[string]closureArg{} // function-valued parameters bound to a function literal
 							for i, pa := range callee.Params {
 								psub[pa.Name()] = kf(x.Call.Args[i])
 								if fn, ok := x.Call.Args[i].(*ssa.Function); ok {
 									fsub[pa.Name()] = fullName(fn)
+								}
+								if mc, ok := x.Call.Args[i].(*ssa.MakeClosure); ok {
+									if fn, ok := mc.Fn.(*ssa.Function); ok && len(fn.Blocks) > 0 && len(fn.Blocks) <= 40 && !stack[fn] {
+										ca := closureArg{fn, map[string]string{}}
+										for j, fvv := range fn.FreeVars {
+											if j < len(mc.Bindings) {
+												ca.fv[fvv.Name()] = kf(mc.Bindings[j])
+											}
+										}
+										csub[pa.Name()] = ca
+									}
 								}
 							}
 							var next []ipath
@@ -195,11 +211,62 @@ func (p *Prog) ipathsD(f *ssa.Function, depth int, stack map[*ssa.Function]bool)
 											n.Vol[nk] = true
 										}
 									}
+									// a call through a parameter that is bound to a function literal here: the literal's
+									// paths are spliced in at the call (one variant of this path per path of the literal)
+									variants := []ipath{n}
 									for _, e := range sp.Events {
 										ne := e
 										if strings.HasPrefix(e.Callee, "dynamic:") {
-											if fn, ok := fsub[strings.TrimPrefix(e.Callee, "dynamic:")]; ok {
+											pn := strings.TrimPrefix(e.Callee, "dynamic:")
+											if fn, ok := fsub[pn]; ok {
 												ne.Callee = fn // a call through a function-valued parameter, resolved at this call site
+											}
+											if ca, ok := csub[pn]; ok && depth < 3 {
+												if fps, okf := p.ipathsD(ca.fn, depth+2, stack); okf && len(fps) > 0 && len(fps) <= 8 && len(fps)*len(variants)*len(cur) <= ipathLimit {
+													lsub := map[string]string{}
+													for k, v := range ca.fv {
+														lsub[k] = v
+													}
+													for pi, pa := range ca.fn.Params {
+														if pi < len(e.Args) {
+															lsub[pa.Name()] = keySubst(e.Args[pi], psub)
+														}
+													}
+													var nv []ipath
+													for _, v := range variants {
+														for _, fp := range fps {
+															w := ipath{Rels: v.Rels.clone(), Vol: v.Vol.clone(), Events: append([]ievent{}, v.Events...), Trace: v.Trace + " ⟶ " + fp.Trace, Root: v.Root, Exit: v.Exit}
+															if w.Exit != "" {
+																nv = append(nv, w)
+																continue
+															}
+															for k := range fp.Rels {
+																if strings.HasPrefix(k, "\x00") {
+																	continue
+																}
+																w.Rels[renormRel(keySubst(k, lsub))] = true
+															}
+															for _, fe := range fp.Events {
+																if fe.Callee == "\x00bind" {
+																	continue
+																}
+																ce := fe
+																ce.Key = keySubst(fe.Key, lsub)
+																ce.Args = nil
+																for _, a := range fe.Args {
+																	ce.Args = append(ce.Args, keySubst(a, lsub))
+																}
+																w.Events = append(w.Events, ce)
+															}
+															if fp.Exit == "panic" {
+																w.Exit = "panic"
+															}
+															nv = append(nv, w)
+														}
+													}
+													variants = nv
+													continue
+												}
 											}
 										}
 										ne.Key = keySubst(e.Key, psub)
@@ -207,36 +274,46 @@ func (p *Prog) ipathsD(f *ssa.Function, depth int, stack map[*ssa.Function]bool)
 										for _, a := range e.Args {
 											ne.Args = append(ne.Args, keySubst(a, psub))
 										}
-										n.Events = append(n.Events, ne)
-									}
-									if sp.Exit == "panic" {
-										n.Exit = "panic"
-										n.Trace += " ⟶ " + sp.Trace
-										next = append(next, n)
-										continue
-									}
-									// bind the call's result(s) to what the callee returned on this path
-									bs := [][2]string{}
-									if len(sp.Ret) == 1 {
-										bs = append(bs, [2]string{ck, keySubst(sp.Ret[0], psub)})
-										if isLiteralKey(sp.Ret[0]) {
-											// keep the summary-level fact about the call itself (isLockRef(t) == false)
-											n.Rels["\x00keep:"+eqRel(ck, sp.Ret[0])] = true
-										}
-									} else {
-										for i, rk := range sp.Ret {
-											bs = append(bs, [2]string{shortKey(ck + "#" + itoa(i)), keySubst(rk, psub)})
-											if isLiteralKey(rk) {
-												n.Rels["\x00keep:"+eqRel(shortKey(ck+"#"+itoa(i)), rk)] = true
+										for vi := range variants {
+											if variants[vi].Exit == "" {
+												variants[vi].Events = append(variants[vi].Events, ne)
 											}
 										}
 									}
-									n.Trace += " ⟶ " + sp.Trace
-									// remember bindings on the path (applied lazily below through a per-path list)
-									n.Rels["\x00bind"] = true
-									nb := append([][2]string{}, bs...)
-									n.Events = append(n.Events, ievent{Callee: "\x00bind", Args: flatten(nb)})
-									next = append(next, n)
+									for _, n := range variants {
+										if n.Exit == "panic" {
+											next = append(next, n)
+											continue
+										}
+										if sp.Exit == "panic" {
+											n.Exit = "panic"
+											n.Trace += " ⟶ " + sp.Trace
+											next = append(next, n)
+											continue
+										}
+										// bind the call's result(s) to what the callee returned on this path
+										bs := [][2]string{}
+										if len(sp.Ret) == 1 {
+											bs = append(bs, [2]string{ck, keySubst(sp.Ret[0], psub)})
+											if isLiteralKey(sp.Ret[0]) {
+												// keep the summary-level fact about the call itself (isLockRef(t) == false)
+												n.Rels["\x00keep:"+eqRel(ck, sp.Ret[0])] = true
+											}
+										} else {
+											for i, rk := range sp.Ret {
+												bs = append(bs, [2]string{shortKey(ck + "#" + itoa(i)), keySubst(rk, psub)})
+												if isLiteralKey(rk) {
+													n.Rels["\x00keep:"+eqRel(shortKey(ck+"#"+itoa(i)), rk)] = true
+												}
+											}
+										}
+										n.Trace += " ⟶ " + sp.Trace
+										// remember bindings on the path (applied lazily below through a per-path list)
+										n.Rels["\x00bind"] = true
+										nb := append([][2]string{}, bs...)
+										n.Events = append(n.Events, ievent{Callee: "\x00bind", Args: flatten(nb)})
+										next = append(next, n)
+									}
 								}
 							}
 							cur = next
